@@ -198,6 +198,22 @@ def job_random(res, rng, w, home, job):
         if members1:
             res.nt("%s|%s|%s|%d" % (opts, where, sorted(archives), len(members1)))
         res.sample({"query": q1, "member_rows": [list(x) for x in members1[:3]], "ordinary_rows": len(ordinary1)}, cap=2)
+        # LIMIT counts matching rows, members included (metamorphic against the unlimited query)
+        M = len(rows1)
+        unl = collections.Counter(x[0] for x in rows1)
+        for N in sorted(set([1, 2, max(1, M // 2), max(1, M - 1), M, M + 1])):
+            ql = "path from t%s %s%s limit %d into list" % (opts, kw, wtxt, N)
+            rl = q_run(res, w, home, ql, tz=tz)
+            if rl.verdict != "ok" or rl.rc != 0 or rl.err:
+                if rl.verdict == "ok":
+                    res.viol("`%s`: status %s stderr %r" % (ql, rl.rc, rl.err[:120]), {"query": ql})
+                continue
+            got_l = rl.rows()
+            if len(got_l) != min(N, M) or (collections.Counter(got_l) - unl):
+                res.viol("`%s`: %d rows, expected min(N, M) = %d of the %d rows the unlimited query returns (members and files together)" % (
+                    ql, len(got_l), min(N, M), M), {"query": ql, "unlimited": q1, "rows": got_l[:10]})
+                break
+            res.count("limits_with_members_checked")
         # ORDER BY across ordinary entries and members
         if qi % 2 == 0:
             key = rng.choice(["size", "size desc"])
